@@ -79,8 +79,19 @@ fn mul(a: P, b: P) -> P {
     (a.0 * b.0 - a.1 * b.1, a.0 * b.1 + a.1 * b.0)
 }
 fn div(a: P, b: P) -> P {
-    let d = b.0 * b.0 + b.1 * b.1;
-    ((a.0 * b.0 + a.1 * b.1) / d, (a.1 * b.0 - a.0 * b.1) / d)
+    // the textbook quotient on a divisor scaled by a power of two (exact) so that its squared modulus neither
+    // overflows nor becomes subnormal; the scale is undone afterwards
+    let m = b.0.abs().max(b.1.abs());
+    if m == 0.0 || !m.is_finite() {
+        let d = b.0 * b.0 + b.1 * b.1;
+        return ((a.0 * b.0 + a.1 * b.1) / d, (a.1 * b.0 - a.0 * b.1) / d);
+    }
+    let k = m.log2().floor() as i32;
+    let s = |x: f64| x * 2f64.powi(-(k / 2)) * 2f64.powi(-(k - k / 2));
+    let (b0, b1) = (s(b.0), s(b.1));
+    let d = b0 * b0 + b1 * b1;
+    let q = ((a.0 * b0 + a.1 * b1) / d, (a.1 * b0 - a.0 * b1) / d);
+    (s(q.0), s(q.1))
 }
 fn modulus(a: P) -> f64 {
     a.0.hypot(a.1)
@@ -332,6 +343,11 @@ pub fn c08(cx: &RunCtx) {
         for (re, im) in [(1.0, e), (1.0, -e), (e, 1.0), (e, -1.0), (1.0 + e, e), (1.0 - e, e), (0.6 + e, 0.8), (0.6, 0.8 - e), (-0.8, 0.6 + e)] {
             grid.push(cleaf(re, im));
         }
+    }
+    // a logarithm whose own modulus is far below 1e-154 (its square underflows in a textbook division)
+    for e in [1e-100, 1e-160, 1e-200] {
+        grid.push(cleaf(1.0, e));
+        grid.push(cleaf(1.0, -e));
     }
     grid.push(cleaf(0.6, 0.8));
     grid.push(cleaf(0.8, -0.6));
